@@ -281,6 +281,10 @@ package tls
 //@   at before call makeSupportedVersions#0: assert k_hybrid: len(ks.KeyShares) <= 3 && (ks.KeyShares[0].Group == X25519MLKEM768 <==> curveIDs[0] == X25519MLKEM768) && (len(ks.KeyShares) > 1 ==> ks.KeyShares[1].Group != X25519MLKEM768) && (len(ks.KeyShares) > 2 ==> ks.KeyShares[2].Group != X25519MLKEM768)
 //@   at before call makeSupportedVersions#0: assert k_good: ksGood(ks.KeyShares, scOf(p.Extensions[4]))
 //@   at after call makeSupportedVersions#0: assert sv_good: svGood(res, p.TLSVersMin, p.TLSVersMax)
+//@   at before call Shuffle#0: assert own_ciphers: fresh(tls13ciphers)
+//@   at before call Shuffle#1: assert own_sigalgs: fresh(sigAndHashAlgos)
+//@   at before call Shuffle#2: assert own_extensions: len(p.Extensions) > 0 ==> fresh(p.Extensions)
+//@   note own_*: (C09, reproducibility) each in-place shuffle permutes a list allocated by this very call, never storage shared with another build (a package-level base list would be permuted for every later spec)
 //@   at before call Shuffle#2: assert fin_sc: scAt(p.Extensions, curveIDs)
 //@   at before call Shuffle#2: assert fin_w: witAlpn(p.Extensions, WithALPN) && witPad(p.Extensions, WithALPN, p.TLSVersMax)
 //@   at before call Shuffle#2: assert fin_t: witTail(p.Extensions, p.TLSVersMax)
